@@ -618,13 +618,27 @@ func runC18(c *Ctx) {
 				continue
 			}
 			nDial++
-			ok := c.cfgFieldLoad(addr, "Server")
-			why := "dials Config.Server"
-			if !ok {
-				why = "dialled address is not Config.Server: " + addr.String()
-			} else {
-				// the call chain from the connect routine passes the port normalisation
-				ok, why = c.afterPortNormalisation(fn, cs)
+			// the address: a load of Config.Server here, or in a caller that passes it down as an argument
+			ok, why := true, "dials Config.Server"
+			for _, o := range c.Origins(addr) {
+				if !c.cfgFieldLoad(o, "Server") {
+					ok, why = false, "dialled address is not Config.Server: "+o.String()
+					break
+				}
+				ld, _ := o.(ssa.Instruction)
+				if ld == nil {
+					ok, why = false, "address origin is not an instruction"
+					break
+				}
+				// the load must happen after the connect routine's port normalisation
+				at := ssa.Instruction(cs)
+				if ld.Parent() != fn {
+					at = ld
+				}
+				if ok2, why2 := c.afterPortNormalisation(at.Parent(), at); !ok2 {
+					ok, why = false, why2
+					break
+				}
 			}
 			r.Add("R2", "dial:"+c.FuncKey(fn)+":"+calleeShort(cc), c.InstrPos(cs), c.FuncKey(fn), "the dialled address is Config.Server with the default port added", ok, why)
 		}
@@ -1097,6 +1111,23 @@ func runC19(c *Ctx) {
 				}
 			}
 		}
+	}
+	if hcap != nil && ackFn == nil {
+		// table-driven dispatch: handler := table[subcommand]; handler(conn, caps)
+		funcInstrs(hcap, func(in ssa.Instruction) {
+			lk, ok := in.(*ssa.Lookup)
+			if !ok {
+				return
+			}
+			if tab := c.tableEntries(lk.X); tab != nil {
+				if f := tab["ACK"]; f != nil {
+					ackFn = f
+				}
+				if f := tab["NAK"]; f != nil {
+					nakFn, nakSeen = f, true
+				}
+			}
+		})
 	}
 	r.Anchor("R2", "ACK handler and NAK handling (dispatched from the CAP handler by subcommand)", ackFn != nil && nakSeen)
 	if nakFn != nil {
